@@ -1,5 +1,6 @@
 """Implementation-side observations of the marker domain (C07, C09).  Public API only."""
 import json
+from unittest import mock
 from packaging.markers import Marker, InvalidMarker, UndefinedComparison, default_environment
 from packaging.requirements import Requirement, InvalidRequirement
 
@@ -36,7 +37,14 @@ def observe(cmd, args):
         m = mk(args[0])
         if m is None: return "I"
         d, o = parse_entries(args[2:])
-        if d and d != dict(default_environment()): return "!defaults-differ"
+        host = dict(default_environment())
+        if d and d != host:
+            # the detected python_full_version may be replaced (platform.python_version() patched): the only detected value whose
+            # form matters to evaluate() - a trailing '+' (CPython built from a development checkout) triggers the repair
+            if {k for k in set(d) | set(host) if d.get(k) != host.get(k)} != {"python_full_version"}: return "!defaults-differ"
+            with mock.patch("platform.python_version", return_value=d["python_full_version"]):
+                if dict(default_environment()) != d: return "!defaults-differ"
+                return _ev_none(m) if args[1] == "N" else ev(m, o)
         if args[1] == "N": return _ev_none(m)
         return ev(m, o)
     if cmd == "k.str":
@@ -110,10 +118,78 @@ def observe(cmd, args):
             p3 = dict(full); p3["python_full_version"] = pfv + "local"
             if ev(m, p3) != r1: return "python_full_version %r not read as %r" % (pfv, pfv + "local")
         return "ok"
+    if cmd == "law.k.repair":
+        # a DETECTED python_full_version ending in '+' (platform.python_version() of a development build) is read as  <it>local :
+        # evaluate() without a mapping, and with a mapping that does not supply the key, equals evaluation with the completed value
+        # spelled out; a detected value without '+' is used as it is
+        m = mk(args[0])
+        if m is None: return "ok"
+        det = args[1]
+        with mock.patch("platform.python_version", return_value=det):
+            if default_environment()["python_full_version"] != det: return "patch not effective"
+            r0 = _ev_none(m)
+            r1 = ev(m, {})
+            r2 = ev(m, {"extra": None})
+            want = ev(m, {"python_full_version": det + "local" if det.endswith("+") else det})
+        if not (r0 == r1 == r2 == want): return "detected python_full_version %r: evaluate() %s, evaluate({}) %s, with the completed value spelled out %s" % (det, r0, r1, want)
+        if det.endswith("+"):
+            from packaging.version import Version, InvalidVersion
+            try: base_ok = Version(det[:-1]).local is None and det[:-1] == det[:-1].rstrip()      # the hypotheses of C07_repair_valid_version
+            except InvalidVersion: base_ok = False
+            if base_ok:
+                try: v = Version(det + "local")
+                except InvalidVersion: return "the completed value %r is not a valid version" % (det + "local")
+                if v.local != "local": return "the completed value %r has local label %r" % (det + "local", v.local)
+        return "ok"
+    if cmd == "law.k.deep":
+        # a deeply nested well-formed marker: accepted, evaluates to the value of the formula, prints a text that reparses equal
+        m = mk(args[0])
+        if m is None: return "a well-formed marker is rejected"
+        r = ev(m, {"os_name": "b"})
+        if r != args[1]: return "evaluates to %s, the formula has value %s" % (r, args[1])
+        t = str(m)
+        m2 = mk(t)
+        if m2 is None: return "str(m) does not parse"
+        if str(m2) != t or not (m2 == m) or hash(m2) != hash(m): return "str(m) does not reparse to an equal marker"
+        if ev(m2, {"os_name": "b"}) != r: return "str(m) evaluates differently"
+        return "ok"
+    if cmd == "law.k.pep508op":
+        # PEP 508: a comparison is a version comparison only if BOTH operands are valid versions (and the operator is a version
+        # operator), otherwise the Python string operator.  args: lhs, op, rhs (literals)
+        from packaging.version import Version, InvalidVersion
+        from packaging.specifiers import Specifier, InvalidSpecifier
+        l, op, r = args
+        m = mk('"%s" %s "%s"' % (l, op, r))
+        if m is None: return "ok"
+        got = ev(m, {})
+        def isv(x):
+            try: Version(x); return True
+            except InvalidVersion: return False
+        import operator
+        pyop = {"<": operator.lt, "<=": operator.le, "==": operator.eq, "!=": operator.ne, ">=": operator.ge, ">": operator.gt}.get(op)
+        if isv(l) and isv(r.strip()): return "ok"      # the specifier branch is the PEP 508 reading
+        if not isv(r.strip()) and pyop is not None:
+            want = "T" if pyop(l, r) else "F"
+            if got != want: return "%r %s %r: right operand is not a version, the string operator gives %s, evaluate() gives %s" % (l, op, r, want, got)
+        return "ok"
+    if cmd == "law.k.reqeval":
+        m = mk(args[0])
+        try: r = Requirement(args[1] + ";" + args[0])
+        except InvalidRequirement: r = None
+        if m is None or r is None or r.marker is None: return "ok" if (m is None) == (r is None) else "Requirement and Marker disagree on acceptance"
+        env = json.loads(args[2])
+        a, b = ev(m, dict(env)), ev(r.marker, dict(env))
+        if a != b: return "Requirement(...).marker evaluates to %s, Marker(...) to %s" % (b, a)
+        if _ev_none(m) != _ev_none(r.marker): return "evaluate() without mapping differs"
+        return "ok"
     if cmd == "law.k.req":
         m = mk(args[0])
-        try: r = Requirement("pkg ; " + args[0])
+        prefix = args[1] if len(args) > 1 else "pkg "
+        tail = args[2] if len(args) > 2 else ""
+        if args[0].endswith("\n"): tail = ""       # END ('$') matches before ONE final newline only; the text already has it
+        try: r = Requirement(prefix + ";" + args[0] + tail)
         except InvalidRequirement: r = None
+        if tail and m is not None and mk(args[0] + tail) is None: return "Marker rejects the text followed by %r" % tail
         if m is None: return "ok" if r is None else "Requirement accepts a marker that Marker rejects"
         if r is None: return "Requirement rejects a marker that Marker accepts"
         if r.marker is None: return "marker lost"
